@@ -33,7 +33,7 @@ def cmd_determinism(args):
     import concurrent.futures as cf
 
     jobs = []
-    profiles = ["generic", "c13", "c05", "c17", "c07", "c19", "c16", "clean"]
+    profiles = ["generic", "c13", "c05", "c17", "c07", "c19", "c16", "clean", "cam"]
     for i, prof in enumerate(profiles):
         for hs in (0, 1, 4242):
             jobs.append(("ALL", prof, 1000 + i, args.seeds, hs))
